@@ -10,7 +10,7 @@
  *   - vpid_of / vpid_of_key are equal and in [0, nb_vp).
  * Families: bc (2D block cyclic, grid offsets ip/jq, k = 1), kcyc (kp,kq > 1), kview, sym (lower/upper, square),
  * symsub (sym with a diagonal sub-matrix offset), band, symband, tab (tabular: random table, explicit table, user table),
- * vec (vector: diag / row / col).
+ * vec (vector: diag / row / col), vecsub (sub-vector offsets), sbc (symmetric block cyclic, r x r pattern).
  * Cases are generated from (seed, family, index): the driver can restart after index k when the code under test aborted. */
 #include "parsec/parsec_config.h"
 #include "parsec/runtime.h"
@@ -23,14 +23,15 @@
 #include "parsec/data_dist/matrix/sym_two_dim_rectangle_cyclic_band.h"
 #include "parsec/data_dist/matrix/two_dim_tabular.h"
 #include "parsec/data_dist/matrix/vector_two_dim_cyclic.h"
+#include "parsec/data_dist/matrix/sbc.h"
 #include <mpi.h>
 #include <setjmp.h>
 #include <signal.h>
 #include <sys/time.h>
 #include "kit.h"
 
-enum { F_BC, F_KCYC, F_KVIEW, F_SYM, F_SYMSUB, F_BAND, F_SYMBAND, F_TAB, F_VEC, F_VECSUB, F_N };
-static const char *fname[] = {"bc", "kcyc", "kview", "sym", "symsub", "band", "symband", "tab", "vec", "vecsub"};
+enum { F_BC, F_KCYC, F_KVIEW, F_SYM, F_SYMSUB, F_BAND, F_SYMBAND, F_TAB, F_VEC, F_VECSUB, F_SBC, F_N };
+static const char *fname[] = {"bc", "kcyc", "kview", "sym", "symsub", "band", "symband", "tab", "vec", "vecsub", "sbc"};
 
 #define MAXR 16
 #define MAXALLOC 2
@@ -106,7 +107,7 @@ void __assert_fail(const char *assertion, const char *file, unsigned int line, c
 static void on_cpu_budget(int sig) {
     (void)sig;
     static const char msg1[] = "VF {\"type\":\"violation\",\"key\":\"init-does-not-terminate\",\"text\":\"parsec_vector_two_dim_cyclic_init consumed the CPU budget of one call (20 s of user time) without returning | ";
-    static const char msg2[] = "\"}\n";
+    static const char msg2[] = "\"}\nVF {\"type\":\"summary\",\"probe\":\"ended by the CPU budget\"}\n";
     if (write(1, msg1, sizeof msg1 - 1) < 0) _exit(1);
     if (cur_case) { const char *d = cur_case->desc; size_t n = strlen(d); if (write(1, d, n) < 0) _exit(1); }
     if (write(1, msg2, sizeof msg2 - 1) < 0) _exit(1);
@@ -144,6 +145,12 @@ static void gen_case(case_t *c, int fam, uint64_t seed, long idx, int known_weig
         if (fam == F_SYMBAND) c->sub = PARSEC_MATRIX_LOWER;
         whole = (fam != F_SYMSUB); break;
     case F_BAND: break;
+    case F_SBC: {
+        /* symmetric block cyclic: nodes = r(r-1)/2 (extended) or r*r/2 (basic, even r) */
+        static const int nr[][2] = {{1,2},{2,2},{3,3},{6,4},{8,4},{10,5},{15,6}};
+        int q = vf_randn(&r, 7); c->R = nr[q][0]; c->bs = nr[q][1]; c->P = c->R; c->Q = 1;
+        c->nb = c->mb; c->ln = c->lm; c->sub = vf_chance(&r, 500) ? PARSEC_MATRIX_LOWER : PARSEC_MATRIX_UPPER;
+        whole = vf_chance(&r, 600); break; }
     case F_TAB: c->sub = vf_randn(&r, 3); c->tabseed = (unsigned)vf_rand(&r) | 1; break;
     case F_VEC: case F_VECSUB: {
         c->nb = 1; c->ln = 1;
@@ -174,7 +181,7 @@ static void gen_case(case_t *c, int fam, uint64_t seed, long idx, int known_weig
     if (whole) { c->i = c->j = 0; c->m = c->lm; c->n = c->ln; }
     else {
         c->i = vf_randn(&r, c->lm); c->j = vf_randn(&r, c->ln); c->m = 1 + vf_randn(&r, c->lm - c->i); c->n = 1 + vf_randn(&r, c->ln - c->j);
-        if (fam == F_SYMSUB) { c->i = c->j = c->mb * vf_randn(&r, (c->lm + c->mb - 1) / c->mb); c->m = c->n = 1 + vf_randn(&r, c->lm - c->i); }
+        if (fam == F_SYMSUB || fam == F_SBC) { c->i = c->j = c->mb * vf_randn(&r, (c->lm + c->mb - 1) / c->mb); c->m = c->n = 1 + vf_randn(&r, c->lm - c->i); }
         if (fam == F_VEC || fam == F_VECSUB) { c->j = 0; c->n = 1; }
         if (fam == F_VEC) { c->i = vf_randn(&r, c->mb < c->lm ? c->mb : c->lm); c->m = 1 + vf_randn(&r, c->lm - c->i); }   /* sub-vector starting in the first segment */
     }
@@ -192,6 +199,7 @@ typedef struct {
     parsec_matrix_sym_block_cyclic_band_t symband;
     parsec_matrix_tabular_t tab;
     parsec_vector_two_dim_cyclic_t vec;
+    parsec_matrix_sbc_t sbc;
     parsec_two_dim_td_table_t *usertable; void **userdata; int nuser;
 } store_t;
 static store_t *st;
@@ -257,6 +265,11 @@ static void build_view(const case_t *c, int r, view_t *v, store_t *s) {
         v->dc = &s->tab.super.super; v->tm = &s->tab.super; v->tab = &s->tab;
         v->sm[0].map = s->tab.super.data_map; v->sm[0].n = s->tab.super.nb_local_tiles; v->nsm = 1; v->nslots = s->tab.super.nb_local_tiles;
         break; }
+    case F_SBC:
+        if (PARSEC_SUCCESS != parsec_matrix_sbc_init(&s->sbc, c->mtype, r, c->mb, c->nb, c->lm, c->ln, c->i, c->j, c->m, c->n, c->R, c->bs, c->sub)) { fprintf(stderr, "generator: sbc init refused nodes=%d r=%d\n", c->R, c->bs); exit(2); }
+        add_alloc(v, &s->sbc.mat, &s->sbc.super, c->es);
+        v->dc = &s->sbc.super.super; v->tm = &s->sbc.super;
+        break;
     case F_VEC: case F_VECSUB:
         parsec_vector_two_dim_cyclic_init(&s->vec, c->mtype, c->sub, r, c->mb, c->lm, c->i, c->m, c->P, c->Q);
         add_alloc(v, &s->vec.mat, &s->vec.super, c->es);
@@ -274,12 +287,13 @@ static void destroy_view(const case_t *c, view_t *v, store_t *s) {
     case F_SYMBAND: parsec_tiled_matrix_destroy(&s->symband.band.super); parsec_tiled_matrix_destroy(&s->symband.off_band.super); parsec_tiled_matrix_destroy(&s->symband.super); break;
     case F_TAB: parsec_matrix_tabular_destroy(&s->tab); if (c->sub == 2) { for (int k = 0; k < s->nuser; k++) free(s->userdata[k]); free(s->userdata); s->userdata = NULL; } break;
     case F_VEC: case F_VECSUB: parsec_tiled_matrix_destroy(&s->vec.super); break;
+    case F_SBC: parsec_tiled_matrix_destroy(&s->sbc.super); break;
     }
 }
 
 /* ------------------------------------------------------------------ the oracle */
 static int in_region(const case_t *c, int a, int b) {
-    if (c->fam == F_SYM || c->fam == F_SYMSUB || c->fam == F_SYMBAND) {
+    if (c->fam == F_SYM || c->fam == F_SYMSUB || c->fam == F_SYMBAND || c->fam == F_SBC) {
         int ga = a + c->i / c->mb, gb = b + c->j / c->nb;
         return c->sub == PARSEC_MATRIX_LOWER ? ga >= gb : gb >= ga;
     }
@@ -394,7 +408,9 @@ static void run_case(const case_t *c, int sample)
 
 int main(int argc, char **argv)
 {
+    vf_heartbeat_start();
     int prov; MPI_Init_thread(&argc, &argv, MPI_THREAD_SERIALIZED, &prov);
+    VF_TICK();
     int pargc = 1; char *pargv0[] = {argv[0], NULL}; char **pargv = pargv0;
     parsec_context_t *ctx = parsec_init(1, &pargc, &pargv);
     if (NULL == ctx) { fprintf(stderr, "parsec_init failed\n"); return 2; }
@@ -405,7 +421,7 @@ int main(int argc, char **argv)
     int f = -1; for (int k = 0; k < F_N; k++) if (!strcmp(fam, fname[k])) f = k;
     if (f < 0) { fprintf(stderr, "unknown family %s\n", fam); return 2; }
     st = calloc(MAXR, sizeof(store_t));
-    vf_heartbeat_start();
+    VF_TICK();
     case_t c;
     if (vf_has_flag(argc, argv, "--probe-vec-diag")) {
         /* single explicit case: vector diag on a P x Q grid (the driver uses it for the grids the generator down-weights) */
